@@ -33,7 +33,7 @@ MALFORMED = [
 
 
 def plan(tier):
-    return {"n": 160 if tier == "quick" else 2500, "floor": 40 if tier == "quick" else 600}
+    return {"n": 160 if tier == "quick" else 640, "floor": 40 if tier == "quick" else 153}
 
 
 def rule(tier):
